@@ -164,6 +164,26 @@ class C03(Prop):
                 scn['controls'].append({'name': 'clash_r', 'kind': 'rule', 'cond': {'t': 'simtime', 'rel': '=', 'thr': t},
                                         'then': [{'link': l['id'], 'attr': 'status', 'value': 'OPEN' if val == 'CLOSED' else 'CLOSED'}], 'else': [],
                                         'priority': rng.pick([1, 5])})
+        # a twin of a plain pipe drawn the other way round, and a window in which one of the pair is closed: the other still carries the water
+        if rng.chance(0.15):
+            tids = set(n_['id'] for n_ in scn['nodes'] if n_['type'] == 'T')
+            pp = [l_ for l_ in gen.plain_pipes(scn, away_from_tanks=False) if l_['a'] not in tids and l_['b'] not in tids]
+            nsteps = o['duration'] // hyd
+            if pp and nsteps >= 3:
+                l0 = rng.pick(pp)
+                twin = dict(l0, id='tw' + l0['id'], a=l0['b'], b=l0['a'], status='OPEN')
+                scn['links'].insert(scn['links'].index(l0) + (1 if rng.chance(0.7) else 0), twin)
+                victim = rng.pick([l0, l0, twin])
+                k1 = rng.irange(0, nsteps - 2)
+                k2 = rng.irange(k1 + 1, nsteps)
+                if k1 == 0:
+                    victim['status'] = 'CLOSED'
+                else:
+                    scn['controls'].append({'name': 'twin_close', 'kind': 'simple', 'cond': {'t': 'simtime', 'rel': '=', 'thr': int(k1 * hyd)},
+                                            'then': [{'link': victim['id'], 'attr': 'status', 'value': 'CLOSED'}], 'priority': 3})
+                if k2 < nsteps:
+                    scn['controls'].append({'name': 'twin_open', 'kind': 'simple', 'cond': {'t': 'simtime', 'rel': '=', 'thr': int(k2 * hyd)},
+                                            'then': [{'link': victim['id'], 'attr': 'status', 'value': 'OPEN'}], 'priority': 3})
         nu = 3 if tier == 'quick' else 10
         us = list(UNITS)
         rng.shuffle(us)
@@ -327,10 +347,16 @@ class C03(Prop):
             why = 'wntr_' + kind
         if healthy:
             pw = np.asarray(out.tables.node['pressure'][jun].values, dtype=float)
-            if pw.size and pw.min() <= 0.5:
+            pe0 = np.asarray(ref.node['pressure'][jun].values, dtype=float)
+            # low pressures in WNTR excuse the world only when EPANET is near them too: where EPANET has every junction well above
+            # zero, a WNTR pressure at or below zero (e.g. a district wrongly zeroed as isolated) is a disagreement to be reported
+            if pw.size and pw.min() <= 0.5 and (not pe0.size or pe0.min() <= 1.5):
                 healthy, why = False, 'wntr_low_or_negative_pressure'
-        if healthy and any(s['isolated'] for s in out.rec.steps):
+        # cut-off junctions are decided by the reference reachability over the statuses WNTR reports, not by WNTR's own isolation flags
+        if healthy and any(inv.ref_isolated(scn, {lid: d_['status'] for lid, d_ in s['links'].items()}) for s in out.rec.steps):
             healthy, why = False, 'isolated_junctions'
+        elif healthy and any(s['isolated'] for s in out.rec.steps):
+            bump(c, 'c03.wntr_isolates_reachable_junctions')
         tw = inv.rows(out.tables) if out.tables is not None else []
         if healthy and tw != times:
             viol.append(V('c03.engines.index', 'index', 'report index: WNTR %r, EPANET %r' % (tw[:10], times[:10])))
